@@ -33,6 +33,8 @@ class Interp:
         self.lambdas: dict[int, tuple[ast.Lambda, Module, Env, FuncInfo | None]] = {}
         self.changed = False
         self.late_changes: list[Any] = []
+        self.record_nodes = True
+        self.node_av: dict[int, AV] = {}
         self.render_log: dict[str, dict[str, AV]] = {}
         self.render_where: dict[str, list[str]] = {}
         self.unresolved_calls: dict[str, int] = {}
@@ -540,7 +542,12 @@ class Interp:
         meth = getattr(self, "ev_" + type(node).__name__, None)
         if meth is None:
             return AV(labels=frozenset({UNKNOWN}))
-        return meth(node, env)
+        v = meth(node, env)
+        if self.record_nodes and isinstance(node, (ast.Name, ast.Attribute, ast.Call, ast.Subscript)):
+            k = id(node)
+            old = self.node_av.get(k)
+            self.node_av[k] = v if old is None else join(old, v)
+        return v
 
     def ev_Constant(self, n: ast.Constant, env: Env) -> AV:
         v = n.value
@@ -1219,7 +1226,7 @@ class Interp:
             for h in st.handlers:
                 e2 = dict(base)
                 if h.name:
-                    e2[h.name] = AV(types=frozenset({"Exception"}), labels=frozenset({RAW}))
+                    e2[h.name] = AV(types=frozenset({"Exception"}))
                 outs.append(self.ex(h.body, e2))
             res: Env | None = None
             for o in outs:
